@@ -45,12 +45,14 @@ class InfoFilePersister:
 
     Result = Iterator[JobStatus[TrashedFile]]
 
+    max_attempts = 1000
+
     def try_persist(self,
                     data,  # type: TrashinfoData
                     ):  # type: (...) -> Result
         index = 0
         name_too_long = False
-        while True:
+        while index < self.max_attempts:
             suffix = self.suffix.suffix_for_index(index)
             trashinfo_basename = create_trashinfo_basename(data.basename,
                                                            suffix,
@@ -71,6 +73,8 @@ class InfoFilePersister:
                                         "attempt for creating %s failed." % trashinfo_path)
 
             index += 1
+        raise IOError("unable to create a .trashinfo file in %s after %s "
+                      "attempts" % (data.info_dir_path, self.max_attempts))
 
 
 def create_trashinfo_basename(basename, suffix, name_too_long):
